@@ -160,7 +160,7 @@ pub fn ref_scenario(rng: &mut Rng) -> String {
 /// metadata written twice / in both styles, time keys that override each other, special keys with bad values
 pub fn meta_scenario(rng: &mut Rng) -> String {
     const KEYS: &[&str] = &["time", "prep time", "cook time", "prep_time", "cook_time", "duration", "time required", "servings", "serves", "yield", "tags", "author", "source", "locale", "title", "[mode]", "[define]", "[duplicate]", "x"];
-    const VALS: &[&str] = &["1h", "10 min", "90", "1h 30m", "a while", "2", "2-4", "a, b", "", "Ann <http://a.b>", "<x>", "en_US", "é", "steps", "ref", "-1", "4294967296", "1e400"];
+    const VALS: &[&str] = &["1h", "10 min", "90", "1h 30m", "a while", "2", "2-4", "a, b", "", "Ann <http://a.b>", "<x>", "en_US", "é", "steps", "ref", "-1", "4294967296", "1e400", "0", "0|2|4", "4|0"];
     let mut s = String::new();
     if rng.chance(1, 2) {
         s.push_str("---\n");
